@@ -41,8 +41,8 @@ def mkTab (j : Json) : Tab :=
     | some p => p.2
     | none => [c]
   { word := fun c => if c.toNat < 128 then asciiWord c else words.contains c.toNat,
-    lower := fun c => if c.toNat < 128 then [c.toLower] else look lowers c,
-    fold := fun c => if c.toNat < 128 then [c.toLower] else look folds c }
+    lower := fun c => if c.toNat < 128 then [lowerAscii c] else look lowers c,
+    fold := fun c => if c.toNat < 128 then [lowerAscii c] else look folds c }
 
 def optChars (j : Json) (k : String) : Option (List Char) := jsonToChars? (getField j k)
 
